@@ -1,7 +1,7 @@
 """C05 - concurrent threads and coroutines never leak action context into each other.
 
 Case = fork-join program (unit 0 = main; other units are threads or asyncio tasks; statements
-enter/exit/log/create/with/ctx/thread/task/join with occurrence ids; `with h` / `ctx h` use an Action object created by any unit) + schedule (list of unit ids).  The real side
+enter/exit/log/create/with/ctx/remote/thread/pthread/task/join with occurrence ids; `with h` / `ctx h` use an Action object created by any unit) + schedule (list of unit ids).  The real side
 runs every unit as a real thread / a real asyncio task; each unit executes exactly one statement per
 release (threads: semaphore handshake between logging calls; tasks: parked on a harness-owned future
 at every await point), a controller coroutine releases them in schedule order.  Model:
@@ -31,6 +31,8 @@ TRUSTED = ["CPython contextvars semantics for threads (fresh context) and asynci
 ASSUMPTIONS = ["occurrence ids are unique (OccUnique) and every unit is spawned once by a lower-numbered unit",
                "units do not share Action objects across threads (documented as unsupported by eliot)",
                "thread units spawn/join threads only; task units may spawn/join both",
+               "a thread started through preserve_context (pthread) is, for the model, a unit that inherits the action current where the "
+               "wrapper was made and whose first statement `remote o` continues it (the real thread has no current action before that call)",
                "an Action is entered with `with` at most once overall (eliot keeps that token on the Action); `context()` blocks are unrestricted"]
 EXPLANATION = ("potential-function proof: log ++ future ~ sequential log for every schedule; model tied to the code by comparing, per step, "
                "the unit's current_action() before/after and the emitted message with its parent")
@@ -64,7 +66,7 @@ def open_handles(code, pos):
     """handles of the blocks of `code` that are open at position `pos` (innermost last)"""
     st = []
     for x in code[:pos]:
-        if x[0] in ("enter", "with", "ctx"):
+        if x[0] in ("enter", "with", "ctx", "remote"):
             st.append(x[1])
         elif x[0] == "exit" and st:
             st.pop()
@@ -81,7 +83,7 @@ def wrap_segment(rng, code, opener):
         new = code[:a] + [opener] + code[a:b] + [closer] + code[b:]
         st, ok = [], True
         for x in new:
-            if x[0] in ("enter", "with", "ctx"):
+            if x[0] in ("enter", "with", "ctx", "remote"):
                 st.append(x)
             elif x[0] == "exit":
                 if not st:
@@ -106,12 +108,13 @@ def gen_program(rng, nunits, family):
     children = {u: [] for u in range(nunits)}
     for v in range(1, nunits):
         u = rng.randrange(v)
-        if family == "threads" or kinds[u] == "thread":
-            k = "thread"
+        if family == "threads" or kinds[u] in ("thread", "pthread"):
+            # a plain thread, or one whose function is handed over through preserve_context()
+            k = rng.choice(["thread", "pthread"])
         elif family == "tasks":
             k = "task"
         else:
-            k = rng.choice(["thread", "task"])
+            k = rng.choice(["thread", "pthread", "task"])
         kinds[v] = k
         children[u].append(v)
     for u in range(nunits):
@@ -140,11 +143,11 @@ def gen_program(rng, nunits, family):
             job = None
             if rng.random() < 0.45:
                 job = 1000 + next(ctr)
-                i = next(k for k, st in enumerate(codes[u]) if st[0] in ("thread", "task") and st[1] == v)
+                i = next(k for k, st in enumerate(codes[u]) if st[0] in ("thread", "task", "pthread") and st[1] == v)
                 # before the spawn, or after it (then the other unit has to wait for the handle)
                 at = i if rng.random() < 0.6 else i + 1
                 codes[u] = codes[u][:at] + [["create", job]] + codes[u][at:]
-            i = next(k for k, st in enumerate(codes[u]) if st[0] in ("thread", "task") and st[1] == v)
+            i = next(k for k, st in enumerate(codes[u]) if st[0] in ("thread", "task", "pthread") and st[1] == v)
             avail[v] = avail[u] + open_handles(codes[u], i)
             if job is not None:
                 new = wrap_segment(rng, codes[v], ["with", job])
@@ -161,6 +164,9 @@ def gen_program(rng, nunits, family):
                     if new is not None:
                         codes[v] = new
                         nshared += 1
+    for v in range(1, nunits):
+        if kinds[v] == "pthread":
+            codes[v] = [["remote", 2000 + next(ctr)]] + codes[v] + [["exit"]]
     return dict(codes=codes, family=family, kinds=[kinds[u] for u in range(nunits)], shared=nshared)
 
 
@@ -168,13 +174,13 @@ def joined(code):
     """Python mirror of Ctx.joinedB [] 0 code"""
     pend, d = [], 0
     for st in code:
-        if st[0] in ("enter", "with", "ctx"):
+        if st[0] in ("enter", "with", "ctx", "remote"):
             d += 1
         elif st[0] == "exit":
             if any(dv >= d for _v, dv in pend):
                 return False
             d = max(d - 1, 0)
-        elif st[0] in ("thread", "task"):
+        elif st[0] in ("thread", "task", "pthread"):
             pend.append((st[1], d))
         elif st[0] == "join":
             pend = [e for e in pend if e[0] != st[1]]
@@ -198,7 +204,7 @@ def advance(codes, pcs, started, u, created=None):
     pcs = list(pcs)
     started = list(started)
     pcs[u] += 1
-    if st[0] in ("thread", "task"):
+    if st[0] in ("thread", "task", "pthread"):
         started[st[1]] = True
     if created is not None and st[0] in ("enter", "create"):
         created = created | {st[1]}
@@ -237,7 +243,7 @@ def seq_schedule(codes):
         st = codes[u][pcs[u]]
         pcs, started, created = advance(codes, pcs, started, u, created)
         acc.append(u)
-        if st[0] in ("thread", "task"):
+        if st[0] in ("thread", "task", "pthread"):
             order.append(st[1])
     return acc
 
@@ -284,6 +290,8 @@ class Runner(object):
         self.ids = {}
         self.keep = []
         self.H = {}          # handle (occurrence id) -> Action object, shared by all units
+        self.lg = None       # the MemoryLogger of this run
+        self.remote = {}     # "uuid@level" of a continued (remote) action -> its occurrence id
         self.trace = []
         self.log = []
         self.problems = []
@@ -345,6 +353,19 @@ class Runner(object):
                 V.done_evt = threading.Event()
                 V.thread = threading.Thread(target=self.thread_main, args=(st[1],), daemon=True)
                 V.thread.start()
+            elif op == "pthread":
+                # the unit's function goes through preserve_context() HERE; the thread calls the wrapper at its first step
+                from eliot import preserve_context
+                V = self.U[st[1]]
+                V.base = None
+                V.wrap_action = U.acts[-1][0] if U.acts else U.base      # what the wrapper must continue (harness bookkeeping)
+                V.wrap_parent = self.aid(before)
+                V.started = True
+                V.go = threading.Semaphore(0)
+                V.done_evt = threading.Event()
+                wrapped = preserve_context(lambda v=st[1]: self.pthread_inner(v))
+                V.thread = threading.Thread(target=self.pthread_main, args=(st[1], wrapped), daemon=True)
+                V.thread.start()
             elif op == "task":
                 V = self.U[st[1]]
                 V.base = current_action()
@@ -374,6 +395,69 @@ class Runner(object):
             self.exec_sync(u, st)
             U.pc += 1
             U.done_evt.set()
+
+    def pthread_main(self, u, wrapped):
+        """unit whose function went through preserve_context: code = [remote o] + body + [exit]"""
+        from eliot import current_action
+
+        U = self.U[u]
+        if not U.go.acquire(timeout=TIMEOUT):
+            return
+        U.before_call = current_action()
+        U.exit_rec = None
+        try:
+            wrapped()
+        except BaseException as e:  # noqa - an observation
+            self.trace.append(dict(u=u, ok=True, before=None, exp_before=None, after=None, exp_after=None, raised=type(e).__name__))
+            U.done_evt.set()
+            return
+        if U.exit_rec is not None:
+            rec = U.exit_rec
+            rec["after"] = self.aid(current_action())
+            rec["exp_after"] = None
+            self.trace.append(rec)
+            U.pc += 1
+            U.done_evt.set()
+
+    def pthread_inner(self, u):
+        """runs inside the wrapper made by preserve_context"""
+        from eliot import current_action
+
+        U = self.U[u]
+        code = self.codes[u]
+        o = code[0][1]
+        a = current_action()
+        expect_none = U.wrap_action is None
+        if a is not None and id(a) not in self.ids:
+            self.ids[id(a)] = o
+            self.keep.append(a)
+        if not expect_none:
+            self.log.append(dict(unit=u, occ=o, kind="start", parent=U.wrap_parent))
+            U.acts.append((a if a is not None else object(), "remote"))
+            try:
+                m = self.lg.messages[-1]
+                if m.get("action_status") == "started":
+                    self.remote["%s@%s" % (m["task_uuid"], m["task_level"][:-1])] = o
+            except Exception:  # noqa
+                pass
+        self.trace.append(dict(u=u, ok=True, before=self.aid(U.before_call), exp_before=None,
+                               after=self.aid(a), exp_after=None if expect_none else o))
+        U.pc += 1
+        U.done_evt.set()
+        for st in code[1:-1]:
+            if not U.go.acquire(timeout=TIMEOUT):
+                return
+            self.exec_sync(u, st)
+            U.pc += 1
+            U.done_evt.set()
+        if not U.go.acquire(timeout=TIMEOUT):
+            return
+        # the final `exit`: returning from the function leaves the continued action
+        cur = current_action()
+        U.exit_rec = dict(u=u, ok=True, before=self.aid(cur), exp_before=self.aid(U.acts[-1][0] if U.acts else U.base))
+        if not expect_none:
+            U.acts.pop()
+            self.log.append(dict(unit=u, occ=o, kind="end", parent=o))
 
     async def task_main(self, u):
         import asyncio
@@ -428,7 +512,7 @@ class Runner(object):
                 self.trace.append(dict(u=u, ok=False))
                 continue
             U = self.U[u]
-            if self.kinds[u] == "thread":
+            if self.kinds[u] in ("thread", "pthread"):
                 U.done_evt.clear()
                 U.go.release()
                 if not U.done_evt.wait(TIMEOUT):
@@ -469,6 +553,7 @@ def run_real(case):
 
     r = Runner(case)
     lg = MemoryLogger()
+    r.lg = lg
     prev = swap_logger(lg)
     try:
         try:
@@ -487,10 +572,10 @@ def run_real(case):
     except Exception:  # noqa
         msgs = []
     return dict(trace=r.trace, log=r.log, messages=msgs, done=[U.started and U.pc >= len(c) for U, c in zip(r.U, r.codes)],
-                problems=r.problems)
+                problems=r.problems, remote=r.remote)
 
 
-def parse_shape(messages):
+def parse_shape(messages, remote=None):
     """unordered forest of the merged log, through the real parser: sorted list of canonical trees;
     also occ -> parent occ ('root' for a task root) for every message / action."""
     from eliot.parse import Parser
@@ -502,6 +587,9 @@ def parse_shape(messages):
         if isinstance(n, WrittenAction):
             sm = n.start_message
             occ = sm.contents.get("occ") if sm is not None else None
+            if occ is None and remote:
+                # a continued action (eliot:remote_task) carries no fields: identified by where it sits
+                occ = remote.get("%s@%s" % (n.task_uuid, n.task_level.as_list()))
             parents[("start", occ)] = parent
             status = n.end_message.contents.get("action_status") if n.end_message is not None else None
             kids = []
@@ -526,6 +614,10 @@ def parse_shape(messages):
 
 def strip(case):
     return dict(codes=case["codes"], kinds=case["kinds"], sched=case["sched"], family=case.get("family"))
+
+
+def describe(m):
+    return "%s occ=%s unit=%s" % (m.get("action_type") or m.get("message_type"), m.get("occ"), m.get("unit"))
 
 
 def oracle(ctx, case, real, seq_shape):
@@ -561,7 +653,28 @@ def oracle(ctx, case, real, seq_shape):
             ctx.violation("unit %d: current_action() after its own step is %s, the action it is in is %s (pick %d)" % (t["u"], t["after"], t["exp_after"], k),
                           dict(c, sched=case["sched"][: k + 1]), key={"component": "own-context"})
             break
-    shape, parents, err = parse_shape(real["messages"])
+    # no two messages of one task may claim the same position
+    seen = {}
+    for m in real["messages"]:
+        k = (m.get("task_uuid"), tuple(m.get("task_level") or ()))
+        if k in seen:
+            ok = False
+            ctx.violation("two messages of one task have the same task_level %s (%s and %s)" % (list(k[1]), describe(seen[k]), describe(m)), c,
+                          key={"component": "level-unique"})
+            break
+        seen[k] = m
+    for (uuid, lvl) in list(seen):
+        for n in range(1, len(lvl)):
+            if (uuid, lvl[:n]) in seen:
+                ok = False
+                ctx.violation("task_level %s (%s) lies below %s, which is a message of the same task (%s), not an action" %
+                              (list(lvl), describe(seen[(uuid, lvl)]), list(lvl[:n]), describe(seen[(uuid, lvl[:n])])), c,
+                              key={"component": "level-unique"})
+                break
+        else:
+            continue
+        break
+    shape, parents, err = parse_shape(real["messages"], real.get("remote"))
     if err is not None:
         ctx.violation("merged log does not parse: %s" % err, c, key={"component": "parse"})
         return False
@@ -601,13 +714,16 @@ def evaluate(ctx, cases, tag):
     for c in cases:
         if not all(joined(code) for code in c["codes"]):
             raise AssertionError("generator produced a program that is not fork-join: %r" % (c["codes"],))
-    model = lean_driver("Driver/C05.lean", [dict(codes=c["codes"], sched=c["sched"]) for c in cases])
+    # for the model a preserve_context thread is a unit that inherits the action current where the wrapper is made
+    # (Stmt.spawnTask) and whose first statement `remote o` continues it
+    model = lean_driver("Driver/C05.lean", [dict(codes=[[["task", st[1]] if st[0] == "pthread" else st for st in code] for code in c["codes"]],
+                                                 sched=c["sched"]) for c in cases])
     seq_cache = {}
     for c, m in zip(cases, model):
         key = repr(c["codes"]) + repr(c["kinds"])
         if key not in seq_cache:
             sreal = run_real(dict(c, sched=seq_schedule(c["codes"])))
-            sshape, _p, serr = parse_shape(sreal["messages"])
+            sshape, _p, serr = parse_shape(sreal["messages"], sreal.get("remote"))
             seq_cache[key] = sshape if (serr is None and all(sreal["done"]) and not sreal["problems"]) else None
             if seq_cache[key] is None:
                 ctx.violation("the sequential run of the program did not complete / parse: %s %s" % (sreal["problems"], serr), strip(c),
@@ -615,6 +731,8 @@ def evaluate(ctx, cases, tag):
         real = run_real(c)
         nt = preempted_inside_action(c, real["trace"])
         uses = {st[0] for code in c["codes"] for st in code}
+        if "pthread" in uses:
+            ctx.count("preserve_context")
         ctx.case(strip(c), nontrivial=nt, tags=[tag, "family:" + c["family"], "units:%d" % len(c["codes"])]
                  + (["shared:context()"] if "ctx" in uses else []) + (["shared:with"] if "with" in uses else []))
         ctx.count("steps", n=sum(1 for t in real["trace"] if t.get("ok")))
@@ -625,6 +743,18 @@ def evaluate(ctx, cases, tag):
             continue
         rtrace = [dict(u=t["u"], ok=bool(t.get("ok")), before=t.get("before") if t.get("ok") else None, after=t.get("after") if t.get("ok") else None)
                   for t in real["trace"]]
+        # a preserve_context thread has no current action before it calls the wrapper; the model keeps the captured
+        # action in the unit's context until its `remote` statement: not an observable difference
+        first = set()
+        mtrace = []
+        for t in m["trace"]:
+            t = dict(t)
+            if t["ok"] and t["u"] not in first:
+                first.add(t["u"])
+                if t["u"] < len(c["kinds"]) and c["kinds"][t["u"]] == "pthread":
+                    t["before"] = None
+            mtrace.append(t)
+        m = dict(m, trace=mtrace)
         good = True
         if real["problems"]:
             good = False
@@ -642,7 +772,7 @@ def evaluate(ctx, cases, tag):
             ctx.broken_tie("correspondence:context-model", "finished units differ from the model", dict(strip(c), real=real["done"], model=m["done"]))
         else:
             # the real parsed attribution agrees with the model's records
-            _s, parents, err = parse_shape(real["messages"])
+            _s, parents, err = parse_shape(real["messages"], real.get("remote"))
             for r in m["log"]:
                 if r["kind"] != "end" and err is None and parents.get((r["kind"], r["occ"]), "missing") != r["parent"]:
                     good = False
@@ -681,6 +811,16 @@ def small_programs():
                                  [["enter", 11], ["with", 5], ["log", 12], ["exit"], ["log", 13], ["exit"]]], kinds=[k0, kind], family=fam))
         progs.append(dict(codes=[[["enter", 1], ["create", 5], [kind, 1], ["join", 1], ["exit"]],
                                  [["with", 5], ["log", 12], ["exit"], ["log", 13]]], kinds=[k0, kind], family=fam))
+    # preserve_context: the wrapper is made, then the parent logs more before / while the thread calls it;
+    # several wrappers from one action
+    for k0, fam in (("thread", "threads"), ("task", "mixed")):
+        progs.append(dict(codes=[[["enter", 1], ["pthread", 1], ["log", 2], ["log", 3], ["join", 1], ["exit"]],
+                                 [["remote", 10], ["log", 11], ["exit"]]], kinds=[k0, "pthread"], family=fam))
+        progs.append(dict(codes=[[["enter", 1], ["log", 2], ["pthread", 1], ["pthread", 2], ["log", 3], ["enter", 4], ["exit"], ["join", 1], ["join", 2], ["exit"]],
+                                 [["remote", 10], ["log", 11], ["exit"]],
+                                 [["remote", 20], ["enter", 21], ["exit"], ["exit"]]], kinds=[k0, "pthread", "pthread"], family=fam))
+        progs.append(dict(codes=[[["pthread", 1], ["enter", 1], ["log", 2], ["exit"], ["join", 1]],
+                                 [["remote", 10], ["log", 11], ["exit"]]], kinds=[k0, "pthread"], family=fam))
     return progs
 
 
@@ -725,7 +865,7 @@ def replay(ctx, obj):
     case = obj.get("case") or {}
     c = dict(codes=case["codes"], kinds=case["kinds"], sched=case["sched"], family=case.get("family", "?"))
     sreal = run_real(dict(c, sched=seq_schedule(c["codes"])))
-    sshape, _p, _e = parse_shape(sreal["messages"])
+    sshape, _p, _e = parse_shape(sreal["messages"], sreal.get("remote"))
     real = run_real(c)
     for t in real["trace"]:
         print(t)
